@@ -4,7 +4,7 @@ from datetime import datetime, timezone
 
 import z3
 
-from vlib.h import ob, excl
+from vlib.h import ob, native, excl
 from vlib import astsmt
 from pgpy import PGPKey, PGPUID, PGPSignature
 from pgpy.constants import SecurityIssues, PubKeyAlgorithm, EllipticCurveOID, KeyFlags, HashAlgorithm, SignatureType
@@ -108,6 +108,12 @@ def _verify(self, subj, sigbytes, hash_alg):
     return Oracle.answer
 
 
+_REAL_ATTRS = {n: PGPKey.__dict__[n] for n in ('is_expired', 'self_verified', 'expires_at', 'check_management', 'check_primitives', 'revocation_signatures')}
+_REAL_EDDSA_VERIFY = F.EdDSAPub.verify
+# a real RSA key and signature for O17.6 (made before any stub is installed)
+RSAKEY = PGPKey.new(PubKeyAlgorithm.RSAEncryptOrSign, 2048, created=T0)
+RSAKEY.add_uid(PGPUID.new('r'), usage={KeyFlags.Sign, KeyFlags.Certify}, hashes=[HashAlgorithm.SHA256], created=T0)
+RSASIG = RSAKEY.sign(b'doc', created=T0)
 F.EdDSAPub.verify = _verify
 _REAL_CHECK_MANAGEMENT = PGPKey.check_management
 PGPKey.check_management = lambda self, self_verifying=False: Oracle.soundness
@@ -211,6 +217,96 @@ def verify_real_aggregation(expired: bool, revoked: bool, svi: int, pidx: int, s
     return truth == ok
 
 
+class real_code:
+    """context manager: the real PGPKey expiry / self-verification / aggregation code and the real EdDSA primitive instead of this module's stand-ins"""
+    def __enter__(self):
+        self.saved = {n: PGPKey.__dict__[n] for n in _REAL_ATTRS}
+        self.saved_v = F.EdDSAPub.verify
+        for n, v in _REAL_ATTRS.items():
+            setattr(PGPKey, n, v)
+        F.EdDSAPub.verify = _REAL_EDDSA_VERIFY
+
+    def __exit__(self, *a):
+        for n, v in self.saved.items():
+            setattr(PGPKey, n, v)
+        F.EdDSAPub.verify = self.saved_v
+        return False
+
+
+HOURS = ((3, 1), (1, 3), (30, 1), (1, 30), (13, 12), (12, 13), (300, 299), (2, 24 * 365))
+
+
+def _real_expiry(age_h, life_h, weak):
+    from datetime import timedelta
+    with real_code():
+        now = datetime.now(timezone.utc).replace(microsecond=0)
+        born = now - timedelta(hours=age_h)
+        k = PGPKey.new(PubKeyAlgorithm.EdDSA, EllipticCurveOID.Ed25519, created=born)
+        k.add_uid(PGPUID.new('e'), usage={KeyFlags.Sign, KeyFlags.Certify}, hashes=[HashAlgorithm.SHA256], key_expiration=timedelta(hours=life_h), created=born)
+        sig = k.sign(b'doc', hash=HashAlgorithm.SHA1 if weak else HashAlgorithm.SHA256)
+        pub = k.pubkey
+        res = pub.verify(b'doc', sig)
+        expired = age_h >= life_h
+        return bool(pub.is_expired) == expired and bool(res) == (not expired) and (pub.expires_at - born) == timedelta(hours=life_h)
+
+
+@ob('O17.5', 'the real expiry test inside verify (no stand-ins, real Ed25519): a key whose lifetime has run out - by one hour or by months - makes a correct signature verify falsy, '
+             'one that has not yet expired verifies truthy; with or without a merely advisory weakness (SHA-1); whatever the zone of the process',
+    'key age / lifetime in hours by symbolic index from 8 pairs around the process-zone offset (11 h) and day boundaries; process zone UTC-11; each path concrete and native',
+    cond_timeout={'q': 200, 't': 600})
+def real_expiry(hi: int, weak: bool) -> bool:
+    """
+    pre: 0 <= hi < 8
+    post: _
+    """
+    h = 0
+    for k in range(8):
+        if hi == k:
+            h = k
+    w = True if weak else False
+    with native():
+        return _real_expiry(HOURS[h][0], HOURS[h][1], w)
+
+
+def _rsa_mutant(mi):
+    from pgpy.packet.types import MPI
+    s = int(RSASIG._signature.signature.md_mod_n)
+    n = int(RSAKEY._key.keymaterial.n)
+    klen = (n.bit_length() + 7) // 8
+    mutants = (s, s + 256 ** klen, s + 0x102 * 256 ** klen, s ^ 1, s + 256 ** (klen + 3), (s + 1) % n)
+    with real_code():
+        sig = PGPSignature.from_blob(bytes(RSASIG))
+        sig._signature.signature.md_mod_n = MPI(mutants[mi])
+        sig._signature.update_hlen()
+        sig = PGPSignature.from_blob(bytes(sig))
+        if int(sig._signature.signature.md_mod_n) != mutants[mi]:
+            return False
+        try:
+            res = RSAKEY.pubkey.verify(b'doc', sig)
+        except Exception:
+            return mi != 0
+        good, bad = list(res.good_signatures), list(res.bad_signatures)
+        if len(good) + len(bad) != 1:
+            return False
+        return bool(res) == (mi == 0) and (len(bad) == 1) == (mi != 0)
+
+
+@ob('O17.6', 'a cryptographically wrong RSA signature is always bad (real RSA primitive): the genuine integer verifies, the same integer with extra high-order octets, '
+             'with a flipped bit or incremented does not', 'mutation by symbolic index from {none, + 256^k, + 0x102 * 256^k, xor 1, + 256^(k+3), + 1 mod n} (k = modulus length); RSA-2048, SHA-256',
+    cond_timeout={'q': 200, 't': 600})
+def rsa_wrong_is_bad(mi: int) -> bool:
+    """
+    pre: 0 <= mi < 6
+    post: _
+    """
+    m = 0
+    for k in range(6):
+        if mi == k:
+            m = k
+    with native():
+        return _rsa_mutant(m)
+
+
 @ob('O17.3', 'SignatureVerification coherence: every examined signature is listed exactly once as good or bad, '
              'truthy iff none is bad, a disqualified or wrong one is always bad; & accumulates',
     'n in 1..3 entries, each issue value from a 10-element basis (symbolic index), split point of & symbolic; one process per (n, i0 parity)',
@@ -256,7 +352,7 @@ def verdict_coherence(n: int, i0: int, i1: int, i2: int, split: int) -> bool:
     return bool(res) == (len(bad) == 0)
 
 
-SANITY = ['replay_o17_1(%d, 0x3E8)' % i for i in (0, 1, 2, 2 | 256, 4, 16, 1024, 1024 | 512, 8, 32, 64)] + [
+SANITY = ['real_expiry(%d, %s)' % (h, w) for h in range(8) for w in (True, False)] + ['rsa_wrong_is_bad(%d)' % m for m in range(6)] + ['replay_o17_1(%d, 0x3E8)' % i for i in (0, 1, 2, 2 | 256, 4, 16, 1024, 1024 | 512, 8, 32, 64)] + [
     'verify_branch(0, 0, True)', 'verify_branch(0, 0, False)', 'verify_branch(2, 3, True)', 'verify_branch(2, 4, True)', 'verify_branch(9, 0, True)',
     'verify_real_aggregation(True, False, 0, 0, True, True)', 'verify_real_aggregation(True, True, 0, 2, False, True)', 'verify_real_aggregation(False, True, 0, 0, True, True)',
     'verify_real_aggregation(False, False, 2, 0, False, True)', 'verify_real_aggregation(False, False, 0, 1, True, False)', 'verdict_coherence(3, 0, 1, 4, 1)', 'verdict_coherence(1, 0, 0, 0, 0)', 'verdict_coherence(2, 3, 5, 0, 3)']
